@@ -464,7 +464,21 @@ def rule_deriv(prog, rep, classes):
                           "sum log|diag|; the spline's derivative function is d/dx of its own in-bounds formula (exact "
                           "rational identity); planar: log|1 + u^.psi| with psi = h'(w.x+b) w (matrix determinant lemma)",
              minimum=14)
-    for q in ELEMENTWISE_LEAVES:
+    # leaf classes added since the tables were confirmed get the same elementwise proof attempt
+    from ..eqterms import child_methods as _cm
+    known = set(ELEMENTWISE_LEAVES) | set(VOLUME_PRESERVING) | set(ITERATIVE) | {
+        "flowjax.bijections.affine.TriangularAffine", "flowjax.bijections.planar._UnconditionalPlanar",
+        "flowjax.bijections.rational_quadratic_spline.RationalQuadraticSpline",
+        "flowjax.bijections.block_autoregressive_network._CallableToBijection"}
+    extra = []
+    for c in classes:
+        if c.qualname in known:
+            continue
+        T0 = method_term(prog, c, "transform")
+        if is_stub(T0) or _cm(T0) or _cm(method_term(prog, c, "transform_and_log_det")):
+            continue
+        extra.append(c.qualname)
+    for q in list(ELEMENTWISE_LEAVES) + extra:
         c = prog.cls(q)
         T, TL = method_term(prog, c, "transform"), method_term(prog, c, "transform_and_log_det")
         site = method_site(prog, c, "transform_and_log_det")
@@ -484,6 +498,22 @@ def rule_deriv(prog, rep, classes):
         except Inconclusive as e:
             rep.undecided("C02.deriv", site, k, str(e))
             continue
+        if not ok and q in extra:
+            # a class outside the confirmed table: bring the returned log-det to the same log|.| normal form
+            # (log(ab) = log|a| + log|b|, log(a^n) = n log|a|) before deciding; what stays different is not decided
+            def expand_logs(s2):
+                if s2[0] == "call" and s2[1] == ("ext", "jax.numpy.log") and set(dict(s2[3])) == {"a"}:
+                    return log_abs(dict(s2[3])["a"])
+                return None
+            g2 = pull_consts(subst(got, expand_logs))
+            try:
+                ok = equal(g2, cands[0][1]) or equal(pull_consts(drop_abs_on_parameters(subst(got, expand_logs))), cands[1][1])
+            except Inconclusive:
+                ok = False
+            if not ok:
+                rep.undecided("C02.deriv", site, k, f"{q} is outside the confirmed table: its log-det {show(got, 120)} "
+                                                    f"could not be related to sum log|{show(d, 60)}| by the log identities")
+                continue
         if ok:
             rep.holds("C02.deriv", site, k, f"dT/dx = {show(d, 80)}")
         else:
